@@ -315,6 +315,8 @@ class ModuleEval:
         for iname, pname, e, op in hist:
             if iname not in out:
                 raise ModelError("history names unknown instance")
+            if op == "mult":
+                continue  # the point at which `n * inst` turned the instance into an array: no effect on the mapping
             if op == "disconnect":
                 if pname not in out[iname]:
                     raise ModelError("disconnect of unconnected port")
